@@ -82,13 +82,13 @@ def join_stmts(items):
 class ProgGen:
     def __init__(self, rng, max_depth=3, allow_panics=True, features=None):
         self.rng = rng
-        self.tg = T.TypeGen(rng, allow_zero_sized=False)
+        self.tg = T.TypeGen(rng, allow_zero_sized=bool(features and "zero" in features))
         self.max_depth = max_depth
         self.scope = []          # dicts {name, ty, mut}
         self.counter = 0
         self.helpers = []        # {"name", "params", "ret", "text", "ast"}
-        self.features = features or {"match", "loops", "helpers", "structs", "assign", "impure"}
-        self.shadow_p = 0.15 if "shadow" in self.features or features is None else 0.0
+        self.features = features or {"match", "loops", "helpers", "structs", "assign", "impure", "shadow"}
+        self.shadow_p = 0.15 if "shadow" in self.features else 0.0
         self.stats = {}
 
     # ------------------------------------------------------------------ utilities
